@@ -11,13 +11,13 @@ ENGINE = "gen_rebind"
 
 RULE = ("programs = try_rebind!{pattern = expr} and rebind_if_ok!{pattern = expr => code} with an Ok payload that is a single "
         "value or a tuple of 2..=6 components, every position being an existing place (local, struct field, array index), "
-        "`let x`, `let x: T`, `let (a, b)`, `_` or `_: T` - complete for arity <= 3, seeded sample for 4..=6 - each run on an Ok "
+        "`let x`, `let x: T`, `let (a, b)`, `let mut x`, `let ref x`, `_` or `_: T` - complete for arity <= 3, seeded sample for 4..=6 - each run on an Ok "
         "and an Err input; oracle = a hand-written `match` in the same program (assign every component in order, leave every "
         "place untouched on Err, propagate the error for try_rebind!), compared on a snapshot of all places and bindings; "
         "every program is first compiled alone: a pattern of any arity 1..=6 that does not compile while its hand-written "
         "twin does is a violation; non-trivial = arity >= 3 or mixed position kinds, counted per distinct program")
 
-KINDS = ["local", "field", "index", "let", "let_typed", "let_tuple", "wild", "wild_typed"]
+KINDS = ["local", "field", "index", "let", "let_typed", "let_tuple", "let_mut", "let_ref", "wild", "wild_typed"]
 
 
 def component(kind, i):
@@ -34,6 +34,10 @@ def component(kind, i):
         return "let x%d: i32" % i, "i32", "let x%d: i32 = {v};" % i, ["x%d" % i]
     if kind == "let_tuple":
         return "let (p%d, q%d)" % (i, i), "(i32, i32)", "let (p%d, q%d) = {v};" % (i, i), ["p%d" % i, "q%d" % i]
+    if kind == "let_mut":
+        return "let mut x%d" % i, "i32", "let mut x%d = {v};" % i, ["x%d" % i]
+    if kind == "let_ref":
+        return "let ref x%d" % i, "i32", "let ref x%d = {v};" % i, ["x%d" % i]
     if kind == "wild":
         return "_", "i32", "let _ = {v};", []
     if kind == "wild_typed":
@@ -96,7 +100,7 @@ def programs(seed, tier):
     for macro in ("try_rebind", "rebind_if_ok"):
         for n in (1, 2, 3):
             for kinds in itertools.product(KINDS, repeat=n):
-                if n == 3 and tier == "quick" and rng.random() > 0.35:
+                if n == 3 and tier == "quick" and rng.random() > 0.2:
                     continue
                 out.append((macro, list(kinds)))
         for n in (4, 5, 6):
